@@ -8,11 +8,20 @@ func init() {
 		Jobs: func(tier string) []sym.Job {
 			var js []sym.Job
 			add := func(k, target int, cs ...int) {
-				pm := map[string]int{"k": k, "target": target, "c0": 0, "c1": 0, "c2": 0, "c3": 0}
+				pm := map[string]int{"k": k, "target": target, "c0": 0, "c1": 0, "c2": 0, "c3": 0, "tricky": 0}
 				for i, c := range cs {
 					pm[[]string{"c0", "c1", "c2", "c3"}[i]] = c
 				}
 				js = append(js, sym.Job{Harness: "VH_C06_batches", Params: pm, MaxPath: 400000})
+				if k == 2 && cs[0] == cs[1] && (cs[0] == 0 || cs[0] == 4) {
+					// same-kind pairs also with adversarial concrete target names (prefix servers, ambiguous decimals)
+					pt := map[string]int{}
+					for k2, v := range pm {
+						pt[k2] = v
+					}
+					pt["tricky"] = 1
+					js = append(js, sym.Job{Harness: "VH_C06_batches", Params: pt, MaxPath: 400000})
+				}
 			}
 			regClasses := ints(0, 1, 2, 3, 5, 6, 7)
 			targets := ints(0, 3, 4, 7)
@@ -61,7 +70,7 @@ func init() {
 			return js
 		},
 		Bounds: map[string]string{
-			"quick":    "lists of 0..3 fields (all ordered pairs of classes; triples over the size classes 1/2/4 registers in sorted and in widest-first order); per field: server in {A,B} (case-split), unit id, address (all 65536), byte order, string length, bit number symbolic; field classes case-split over {Uint16, Int8, Uint32, Float64, String, Bit(any bit 0..255), Coil, invalid type}; split targets FC1-TCP, FC2-RTU, FC3-TCP, FC4-RTU; map iteration order: all permutations up to 3 groups",
+			"quick":    "lists of 0..3 fields (all ordered pairs of classes; triples over the size classes 1/2/4 registers in sorted and in widest-first order); per field: server in {A,B} (case-split), unit id, address (all 65536), byte order, string length, bit number symbolic; field classes case-split over {Uint16, Int8, Uint32, Float64, String, Bit(any bit 0..255), Coil, invalid type}; split targets FC1-TCP, FC2-RTU, FC3-TCP, FC4-RTU; additionally pairs of fields on adversarial CONCRETE targets (servers {h1,h11,h1_1} x units {1,2,11,12,21}: names that collide when concatenated without a separator); map iteration order: all permutations up to 3 groups",
 			"thorough": "all 8 split targets; additionally selected lists of 4 fields",
 		},
 		Outside:   []string{"more than 3 (thorough: 4) fields", "more than 2 distinct server strings", "field types not in the class list are represented by a type of the same register size"},
@@ -80,6 +89,7 @@ func init() {
 				for i, c := range cs {
 					pm[[]string{"c0", "c1", "c2", "c3"}[i]] = c
 				}
+				pm["tricky"] = 0
 				js = append(js, sym.Job{Harness: "VH_C05_extract", Params: pm, MaxPath: 400000, AbstractCRC: target%2 == 1})
 			}
 			th := tier == "thorough"
@@ -94,7 +104,7 @@ func init() {
 					add(1, t, 1, 1, 4, c)
 					add(1, t, 0, 1, 4, c)
 				}
-				pairs := [][]int{{0, 1}, {1, 2}, {2, 3}, {0, 0}, {1, 7}, {3, 5}}
+				pairs := [][]int{{0, 1}, {1, 0}, {1, 2}, {2, 0}, {0, 2}, {2, 3}, {0, 0}, {1, 7}, {9, 7}, {3, 5}}
 				if th {
 					pairs = nil
 					for i, a := range single {
